@@ -1,4 +1,4 @@
-import PC.Proofs.SupArms
+import PC.Proofs.SupGate
 import PC.Spec.SupSpec
 /-! C01 — dependency gating (supervisor model). -/
 namespace PC.Props.C01
@@ -89,5 +89,52 @@ def chainRun (code : Int) : List Choice :=
 example : ((runTrace (init .coarse false chain) (chainRun 0)).2.filter isLaunch) = [.launch 0, .launch 1] := by decide
 example : ((runTrace (init .coarse false chain) (chainRun 3)).2.filter isLaunch) = [.launch 0] := by decide
 example : ((runTrace (init .coarse false chain) (chainRun 3)).1.ps 1).status = .skipped := by decide
+
+
+/-! ### The gate as an invariant of every reachable state (all schedules, all histories) -/
+
+/-- **Dependency gating.** In every state reachable from the start — whatever the schedule, the
+    requests issued, the exits, probe results and the order in which Go iterated its maps — a
+    process thread that stands anywhere in the launch phase of `run()` (from its entry to the
+    back-off, i.e. wherever a command can be started) has every one of its dependencies covered:
+    either no instance was registered under that name when the process looked it up, or the
+    process found an instance `d` under that name, was woken from its wait on `d` for the
+    configured condition, and the corresponding latch of `d` (done / readiness released / ready
+    line or abort recorded / started) is set — and still is. -/
+theorem launch_gated (gr : Gran) (o : Bool) (cfgs : List Cfg) (s : Sys) (h : Reach (init gr o cfgs) s)
+    (t : Tid) (ht : t < s.threads.length) (i : IId) (hk : (s.thr t).kind = .proc i)
+    (hl : (s.thr t).pc.isLaunch = true) :
+    ∀ dep ∈ (s.icfg i).deps,
+      GateEv.notFound i dep.1 ∈ s.gate ∨
+      ∃ d, GateEv.found i dep.1 d ∈ s.gate ∧ GateEv.passed i d dep.2 ∈ s.gate ∧ latchB s dep.2 d = true := by
+  have g := reach_gateInv gr o cfgs h
+  intro dep hd
+  rcases (g.thr t ht i hk).2.1 hl dep hd with e | ⟨d, e1, e2⟩
+  · exact Or.inl e
+  · exact Or.inr ⟨d, e1, e2, g.passed i d dep.2 e2⟩
+
+/-- a command is started by `doLaunch` only, which runs at the labels `run:checked` and
+    `backoff:elapsed` — both in the launch phase -/
+theorem launch_sites (s : Sys) (t : Tid) (i : IId) (h : Hints) :
+    stepProc s t i h .backoffElapsed = doLaunch s t i ∧
+    Pc.isLaunch .runChecked = true ∧ Pc.isLaunch .backoffElapsed = true := ⟨rfl, rfl, rfl⟩
+
+/-- while the dependency phase lasts, every dependency is still to be looked up, is the one being
+    waited on (on the instance that was found), or is already covered -/
+theorem dep_phase_progress (gr : Gran) (o : Bool) (cfgs : List Cfg) (s : Sys) (h : Reach (init gr o cfgs) s)
+    (t : Tid) (ht : t < s.threads.length) (i : IId) (hk : (s.thr t).kind = .proc i)
+    (hp : (s.thr t).pc.isDep = true) :
+    ∀ dep ∈ (s.icfg i).deps, dep ∈ restOf (s.thr t).pc ∨ Covered s i dep ∨
+      ∃ d, curOf (s.thr t).pc = some (d, dep.2) ∧ GateEv.found i dep.1 d ∈ s.gate :=
+  ((reach_gateInv gr o cfgs h).thr t ht i hk).2.2 hp
+
+/-- the hypotheses of `launch_gated` are met by a real execution: `b` depends on `a` completing;
+    after `a` exited and `b` was woken, `b`'s thread stands at `cmd:wait` with its dependency
+    recorded as found and passed -/
+example :
+    let s := (runTrace (init .coarse false [{}, { deps := [(0, .completed)] }])
+      [.call 0 .runMain, .run 0, .run 1, .run 2, .exit 0 0, .run 1, .run 2]).1
+    (s.thr 2).kind = .proc 1 ∧ (s.thr 2).pc.isLaunch = true ∧
+    s.gate = [.passed 1 0 .completed, .found 1 0 0] := by decide
 
 end PC.Props.C01
